@@ -268,3 +268,424 @@ func c04CalcWritesNormaliserInputs(c *core.Ctx) {
 	}
 	c.Extra("C04-R13_combo_member_writes_in_bill_calculation", n)
 }
+
+// c04OwnCountryBlanked — C04-R14: the calculation blanks a combo's country
+// when it equals the document's regime country (tax.Combo.calculate), after
+// the normalisers have run. A regime or addon function that takes a combo and
+// decides on its country must therefore decide the same for "" and for the
+// package's own country: otherwise the first calculation (country as typed)
+// and the second (country blanked) normalise the combo differently. Decided
+// by evaluating every condition and switch that reads tax.Combo.Country under
+// both values, over all truth assignments of the other terms it contains.
+func c04OwnCountryBlanked(c *core.Ctx) {
+	p := c.P
+	c.Rule("C04-R14", "combo normalisers decide the same for an empty country and the regime's own (which the calculation blanks)", 3)
+	combo := p.Named("tax", "Combo")
+	blank := p.Func("tax", "Combo", "calculate")
+	if combo == nil || blank == nil {
+		c.Ob("C04-R14", "UNRESOLVED:tax.Combo.calculate", token.NoPos, false, "type or method not found")
+		return
+	}
+	var countryField *types.Var
+	if st, ok := combo.Underlying().(*types.Struct); ok {
+		for i := 0; i < st.NumFields(); i++ {
+			if st.Field(i).Name() == "Country" {
+				countryField = st.Field(i)
+			}
+		}
+	}
+	// the premise: the calculation writes "" into the member
+	writes := false
+	ast.Inspect(blank.Decl.Body, func(m ast.Node) bool {
+		if as, ok := m.(*ast.AssignStmt); ok && len(as.Lhs) == 1 && len(as.Rhs) == 1 {
+			if core.FieldOf(blank.Pkg.TypesInfo, as.Lhs[0]) == countryField && countryField != nil {
+				if tv, ok := blank.Pkg.TypesInfo.Types[as.Rhs[0]]; ok && tv.Value != nil && tv.Value.ExactString() == `""` {
+					writes = true
+				}
+			}
+		}
+		return true
+	})
+	if !writes {
+		c.Ob("C04-R14", "tax.(*Combo).calculate#blanks-own-country", blank.Decl.Pos(), true, "")
+		return // nothing blanks the country: nothing to agree with
+	}
+	regimes := map[string]bool{}
+	for _, pk := range p.Pkgs {
+		rel := core.RelPkg(pk.PkgPath)
+		if strings.HasPrefix(rel, "regimes/") && strings.Count(rel, "/") == 1 {
+			regimes[strings.ToUpper(strings.TrimPrefix(rel, "regimes/"))] = true
+		}
+	}
+	folder := &core.Folder{P: p}
+	n := 0
+	for _, fd := range p.AllFuncs() {
+		if p.IsTestFile(fd.Decl.Pos()) || fd.Decl.Body == nil {
+			continue
+		}
+		rel := core.RelPkg(fd.Obj.Pkg().Path())
+		seg := strings.Split(rel, "/")
+		if len(seg) < 2 || (seg[0] != "regimes" && seg[0] != "addons") {
+			continue
+		}
+		own := strings.ToUpper(seg[1])
+		if !regimes[own] {
+			continue
+		}
+		if strings.Contains(strings.ToLower(fd.Obj.Name()), "valid") {
+			continue // validation runs on the calculated document: the country is blanked by then
+		}
+		info := fd.Pkg.TypesInfo
+		ld := core.NewLocalDefs(info, fd.Decl.Body)
+		isCountry := func(e ast.Expr) bool {
+			e = ast.Unparen(ld.Resolve(ast.Unparen(e), 3))
+			return core.FieldOf(info, e) == countryField
+		}
+		mentions := func(e ast.Node) bool {
+			found := false
+			ast.Inspect(e, func(m ast.Node) bool {
+				if x, ok := m.(ast.Expr); ok && isCountry(x) {
+					found = true
+				}
+				return !found
+			})
+			return found
+		}
+		constOf := func(e ast.Expr) (string, bool) {
+			if tv, ok := info.Types[e]; ok && tv.Value != nil {
+				if s, ok := folder.Fold(fd.Pkg, e).(string); ok {
+					return s, true
+				}
+			}
+			if s, ok := folder.Fold(fd.Pkg, e).(string); ok {
+				return s, true
+			}
+			// l10n.PT.Tax(): the code itself
+			if cl, ok := ast.Unparen(e).(*ast.CallExpr); ok && len(cl.Args) == 0 {
+				if se, ok := ast.Unparen(cl.Fun).(*ast.SelectorExpr); ok && (se.Sel.Name == "Tax" || se.Sel.Name == "Code" || se.Sel.Name == "String") {
+					if s, ok := folder.Fold(fd.Pkg, se.X).(string); ok {
+						return s, true
+					}
+				}
+			}
+			return "", false
+		}
+		// eval: 1 true, 0 false, -1 cannot be evaluated
+		var eval func(e ast.Expr, val string, asg map[string]bool, atoms *[]string) int
+		eval = func(e ast.Expr, val string, asg map[string]bool, atoms *[]string) int {
+			e = ast.Unparen(e)
+			if !mentions(e) {
+				k := types.ExprString(e)
+				if _, ok := asg[k]; !ok {
+					if atoms != nil {
+						*atoms = append(*atoms, k)
+					}
+					return 0
+				}
+				if asg[k] {
+					return 1
+				}
+				return 0
+			}
+			switch x := e.(type) {
+			case *ast.UnaryExpr:
+				if x.Op == token.NOT {
+					if v := eval(x.X, val, asg, atoms); v >= 0 {
+						return 1 - v
+					}
+				}
+				return -1
+			case *ast.BinaryExpr:
+				switch x.Op {
+				case token.LAND, token.LOR:
+					l, r := eval(x.X, val, asg, atoms), eval(x.Y, val, asg, atoms)
+					if l < 0 || r < 0 {
+						return -1
+					}
+					if x.Op == token.LAND {
+						return l & r
+					}
+					return l | r
+				case token.EQL, token.NEQ:
+					l, r := x.X, x.Y
+					if !isCountry(l) {
+						l, r = r, l
+					}
+					if !isCountry(l) {
+						return -1
+					}
+					s, ok := constOf(r)
+					if !ok {
+						return -1
+					}
+					if (s == val) == (x.Op == token.EQL) {
+						return 1
+					}
+					return 0
+				}
+				return -1
+			case *ast.CallExpr:
+				se, ok := ast.Unparen(x.Fun).(*ast.SelectorExpr)
+				if !ok || !isCountry(se.X) {
+					return -1
+				}
+				switch se.Sel.Name {
+				case "Empty", "IsEmpty":
+					if val == "" {
+						return 1
+					}
+					return 0
+				case "In":
+					for _, a := range x.Args {
+						s, ok := constOf(a)
+						if !ok {
+							return -1
+						}
+						if s == val {
+							return 1
+						}
+					}
+					return 0
+				}
+				return -1
+			case *ast.Ident:
+				// a boolean local defined from the country
+				if d := ld.Resolve(x, 3); d != ast.Expr(x) {
+					return eval(d, val, asg, atoms)
+				}
+			}
+			return -1
+		}
+		judge := func(cond ast.Expr, at token.Pos, what string) {
+			n++
+			key := fmt.Sprintf("%s#country-decision:%s", fd.Name(), what)
+			var atoms []string
+			if eval(cond, "", map[string]bool{}, &atoms) < 0 {
+				c.Undecided("C04-R14", key, at, "a condition on the combo's country that cannot be evaluated for the empty and the own country")
+				return
+			}
+			atoms = uniq(atoms)
+			if len(atoms) > 8 {
+				c.Undecided("C04-R14", key, at, "too many independent terms in a condition on the combo's country")
+				return
+			}
+			ok := true
+			for m := 0; m < 1<<len(atoms); m++ {
+				asg := map[string]bool{}
+				for i, a := range atoms {
+					asg[a] = m&(1<<i) != 0
+				}
+				if eval(cond, "", asg, nil) != eval(cond, own, asg, nil) {
+					ok = false
+				}
+			}
+			c.Ob("C04-R14", key, at, ok, fmt.Sprintf("%s decides differently for a combo whose country is %q and one without a country; the calculation that follows blanks the country when it is the regime's own, so the second calculation of the same document takes the other branch: calculate → serialise → parse → calculate is not a fixpoint", fd.Name(), own))
+		}
+		idx := 0
+		ast.Inspect(fd.Decl.Body, func(m ast.Node) bool {
+			switch x := m.(type) {
+			case *ast.IfStmt:
+				if mentions(x.Cond) {
+					idx++
+					judge(x.Cond, x.Cond.Pos(), fmt.Sprintf("if%d", idx))
+				}
+			case *ast.SwitchStmt:
+				if x.Tag != nil && isCountry(x.Tag) {
+					idx++
+					n++
+					key := fmt.Sprintf("%s#country-decision:switch%d", fd.Name(), idx)
+					clauseOf := func(val string) int {
+						def := -1
+						for i, s := range x.Body.List {
+							cc := s.(*ast.CaseClause)
+							if cc.List == nil {
+								def = i
+							}
+							for _, e := range cc.List {
+								if s, ok := constOf(e); ok && s == val {
+									return i
+								}
+							}
+						}
+						return def
+					}
+					c.Ob("C04-R14", key, x.Pos(), clauseOf("") == clauseOf(own), fmt.Sprintf("%s switches on the combo's country and handles %q and the empty country in different clauses; the calculation that follows blanks the country when it is the regime's own: the second calculation of the same document takes the other clause", fd.Name(), own))
+				} else if x.Tag == nil {
+					for _, s := range x.Body.List {
+						for _, e := range s.(*ast.CaseClause).List {
+							if mentions(e) {
+								idx++
+								judge(e, e.Pos(), fmt.Sprintf("case%d", idx))
+							}
+						}
+					}
+				}
+			}
+			return true
+		})
+	}
+	c.Ob("C04-R14", "country-decisions#found", token.NoPos, n >= 3, fmt.Sprintf("only %d decisions on a combo's country were found in regime and addon packages (3 confirmed by hand: regimes/pt, addons/pt/saft, addons/es/verifactu)", n))
+}
+
+// c04RequiresDepth — C04-R15: the list of addons of a document is expanded
+// with the addons each one requires when the normalisers are collected
+// (tax.Addons.normalizeAddons). The expansion as written adds the direct
+// requirements of the keys that are in the list: a requirement of a
+// requirement only arrives on the next calculation, when the first one's
+// output is the input — and with it that addon's normalisers, scenarios and
+// validators. So either the expansion is transitive (the function recurses, or
+// repeats its pass in an enclosing loop), or no required addon of any addon
+// definition has requirements of its own.
+func c04RequiresDepth(c *core.Ctx) {
+	p := c.P
+	c.Rule("C04-R15", "addon requirements are one level deep unless their expansion is transitive", 3)
+	fd := p.Func("tax", "Addons", "normalizeAddons")
+	if fd == nil {
+		c.Ob("C04-R15", "UNRESOLVED:tax.Addons.normalizeAddons", token.NoPos, false, "method not found")
+		return
+	}
+	// transitive? recursion through the package, or the read of Requires sits inside two loops
+	transitive := false
+	seen := map[*types.Func]bool{}
+	var reach func(f *types.Func, depth int)
+	reach = func(f *types.Func, depth int) {
+		if depth > 4 || seen[f] {
+			return
+		}
+		seen[f] = true
+		for _, g := range p.FuncRefs(f) {
+			if g == fd.Obj {
+				transitive = true
+			}
+			if g.Pkg() == fd.Obj.Pkg() && p.DeclOf(g) != nil {
+				if g2 := p.DeclOf(g); g2 != nil {
+					for _, h := range p.FuncRefs(g) {
+						if h == g {
+							transitive = true // a recursive helper does the expansion
+						}
+					}
+				}
+				reach(g, depth+1)
+			}
+		}
+	}
+	reach(fd.Obj, 0)
+	var loops int
+	var walk func(n ast.Node, depth int)
+	walk = func(n ast.Node, depth int) {
+		ast.Inspect(n, func(m ast.Node) bool {
+			if m == nil || m == n {
+				return true
+			}
+			switch x := m.(type) {
+			case *ast.ForStmt:
+				walk(x.Body, depth+1)
+				return false
+			case *ast.RangeStmt:
+				walk(x.Body, depth+1)
+				return false
+			case *ast.SelectorExpr:
+				if x.Sel.Name == "Requires" && depth > loops {
+					loops = depth
+				}
+			}
+			return true
+		})
+	}
+	walk(fd.Decl.Body, 0)
+	if loops >= 2 {
+		transitive = true
+	}
+	// the requirement graph of the addon definition literals
+	folder := &core.Folder{P: p}
+	requires := map[string][]string{}
+	where := map[string]token.Pos{}
+	for _, pk := range p.Pkgs {
+		rel := core.RelPkg(pk.PkgPath)
+		if !strings.HasPrefix(rel, "addons/") {
+			continue
+		}
+		for _, file := range pk.Syntax {
+			if p.IsTestFile(file.Pos()) {
+				continue
+			}
+			ast.Inspect(file, func(n ast.Node) bool {
+				cl, ok := n.(*ast.CompositeLit)
+				if !ok || !litTypeIs(pk.TypesInfo, cl, "tax.AddonDef") {
+					return true
+				}
+				key := ""
+				var reqs []string
+				decided := true
+				for _, el := range cl.Elts {
+					kv, ok := el.(*ast.KeyValueExpr)
+					if !ok {
+						continue
+					}
+					id, _ := kv.Key.(*ast.Ident)
+					if id == nil {
+						continue
+					}
+					switch id.Name {
+					case "Key":
+						if s, ok := folder.Fold(pk, kv.Value).(string); ok {
+							key = s
+						}
+					case "Requires":
+						list, ok := folder.Fold(pk, kv.Value).([]any)
+						if !ok {
+							decided = false
+							continue
+						}
+						for _, e := range list {
+							if s, ok := e.(string); ok {
+								reqs = append(reqs, s)
+							} else {
+								decided = false
+							}
+						}
+					}
+				}
+				if key == "" {
+					return false
+				}
+				if !decided {
+					c.Undecided("C04-R15", "addon:"+key+"#requires", cl.Pos(), "the requirements of this addon definition are not a literal list of constant keys")
+					return false
+				}
+				requires[key] = reqs
+				where[key] = cl.Pos()
+				return false
+			})
+		}
+	}
+	var keys []string
+	for k := range requires {
+		keys = append(keys, k)
+	}
+	sort.Strings(keys)
+	nReq := 0
+	for _, k := range keys {
+		if len(requires[k]) == 0 {
+			continue
+		}
+		nReq++
+		var deep []string
+		for _, r := range requires[k] {
+			for _, rr := range requires[r] {
+				has := false
+				for _, r2 := range requires[k] {
+					if r2 == rr {
+						has = true
+					}
+				}
+				if !has {
+					deep = append(deep, r+" → "+rr)
+				}
+			}
+		}
+		c.Ob("C04-R15", "addon:"+k+"#requires", where[k], transitive || len(deep) == 0,
+			fmt.Sprintf("addon %s requires %v, which has requirements of its own that %s does not list (%s); %s adds direct requirements only, so they join the document's list — with their normalisers, scenarios and validators — on the second calculation: calculate → serialise → parse → calculate is not a fixpoint", k, requires[k], k, strings.Join(deep, ", "), fd.Name()))
+	}
+	c.Ob("C04-R15", "addons#with-requirements", token.NoPos, nReq >= 3 && len(keys) >= 10, fmt.Sprintf("only %d addon definitions (%d with requirements) were found", len(keys), nReq))
+}
